@@ -36,14 +36,18 @@ def exhaustive_pure():
     for m in mats:
         n = len(m)
         for thr in (F(1, 2), F(3, 4)):
-            for fun in sorted(set(heap.PURE_FUNS)):
+            for fun in sorted(set(heap.PURE_FUNS + heap.LOW_FUNS)):
                 variants = [{}]
                 if fun == "flat":
                     variants = [{"method": x} for x in ("upgma", "single", "complete", "ward")]
                 elif fun == "fuzzy":
                     variants = [{"method": x} for x in ("upgma", "single", "complete")]
                 elif fun == "matrix2groups":
-                    variants = [{"method": x} for x in ("upgma", "single", "complete", "mcl")]
+                    variants = [{"method": x} for x in ("upgma", "single", "complete", "mcl", "ward")]
+                elif fun == "low_flat":
+                    variants = [{"method": x} for x in ("upgma", "single", "complete", "ward")]
+                elif fun in ("low_upgma", "low_neighbor"):
+                    variants = [{"distances": True}, {"distances": False}]
                 elif fun == "matrix2tree":
                     variants = [{"method": x} for x in ("upgma", "neighbor")]
                 elif fun in ("upgma", "neighbor"):
